@@ -704,7 +704,13 @@ Inductive case :=
             (len : Z) (maxd : res Z) (minmax : res (Z * Z))
 | CaseStats (fx : bool) (t : tree) (w : tr)
             (b1 : sobs) (colless : list (norm * sobs)) (sackin : list (norm * sobs))
-            (nbar : sobs) (tness : sobs) (gammas : list (precv * gobs)).
+            (nbar : sobs) (tness : sobs) (gammas : list (precv * gobs))
+(* one group of queries inside a history on ONE tree object (queries, then edits of the edge
+   lengths, then queries again): t is the tree as it is at that moment; every method recomputes
+   from the current lengths, so the model is evaluated on t alone *)
+| CaseStep (fx : bool) (t : tree) (w : tr)
+           (lineages : list (Z * res Z)) (maxd : res Z) (minmax : res (Z * Z)) (len : Z)
+           (sorted : list (cfg * bool * lz_obs)) (tness : list sobs) (gammas : list (precv * gobs)).
 
 Definition case_ok (k : case) : bool :=
   match k with
@@ -728,6 +734,15 @@ Definition case_ok (k : case) : bool :=
     && sobs_ok (Ok (N_bar t)) nbar
     && sobs_ok (treeness t) tness
     && forallb (fun po => gamma_ok fx w (fst po) t (snd po)) gammas
+  | CaseStep fx t w lineages maxd minmax len sorted tness gammas =>
+    forallb (fun xo => res_Z_eqb (num_lineages_at (fst xo) t) (snd xo)) lineages
+    && res_Z_eqb (max_distance_from_root t) maxd
+    && res_eqb zz_eqb (minmax_leaf_distance_from_root t) minmax
+    && (tree_length t =? len)%Z
+    && forallb (fun cio => lz_obs_ok (node_ages_v fx (fst (fst cio)) (snd (fst cio)) t) (snd cio)) sorted
+    && forallb (fun o => sobs_ok (treeness t) o) tness
+    && (match gammas with [] => true | _ => tr_ok (Z.of_nat (length (leaves t))) w end)
+    && forallb (fun po => gamma_ok fx w (fst po) t (snd po)) gammas
   end.
 
 (* what the model computes, for replays *)
@@ -736,6 +751,8 @@ Definition case_run (k : case) :=
   | CaseAges fx t c io _ _ mn eon _ =>
     (Some (calc_node_ages_v fx c t), None, None)
   | CaseDepth t _ _ _ _ _ lineages _ _ _ =>
+    (None, Some (root_dists t, map (fun xo => num_lineages_at (fst xo) t) lineages, tree_length t), None)
+  | CaseStep fx t w lineages _ _ _ _ _ gammas =>
     (None, Some (root_dists t, map (fun xo => num_lineages_at (fst xo) t) lineages, tree_length t), None)
   | CaseStats fx t w _ colless sackin _ _ gammas =>
     (None, None, Some (B1 t, map (fun no => colless_tree_imbalance w (fst no) t) colless,
